@@ -7,7 +7,8 @@
 // Universe: statement form x decoration (lead x trailer x letter case x inner whitespace) x
 // user {rw_split, rw_nosplit, ro_split, ro_nosplit} x check_select_lock {true, false in the
 // namespace configuration} x transaction state {none, BEGIN, SET autocommit=0} x transport
-// {COM_QUERY, COM_STMT_PREPARE+EXECUTE}.
+// {COM_QUERY, COM_STMT_PREPARE+EXECUTE}; plus multi-statement COM_QUERYs "<plain read>; F",
+// "F; <plain read>", "<plain read>; F; <plain read>" judged piece by piece.
 //
 // Oracle = the property statement as a table (never Gaea's own classification):
 //   - inside a transaction every statement that reaches a backend reaches the master;
@@ -156,6 +157,23 @@ type caseT struct {
 	Tx        string `json:"tx"`
 	Transport string `json:"transport"`
 	SQL       string `json:"sql"`
+	// multi-statement transport only: the pieces of SQL in order (joined by "; ") and the
+	// shape, e.g. "plain-select;F" — F is the decorated form, the others are plain reads
+	Shape  string   `json:"shape,omitempty"`
+	Pieces []pieceT `json:"pieces,omitempty"`
+}
+
+// pieceT is one statement of a multi-statement query.
+type pieceT struct {
+	Role  string `json:"role"`  // form | plain-select | plain-show
+	Class string `json:"class"` // class of this piece in the must-master table
+	SQL   string `json:"sql"`
+}
+
+// the replica-eligible plain reads put before / behind the form in a multi-statement query
+var plainPieces = []pieceT{
+	{"plain-select", "plain", "select id, v from tc where id = 2"},
+	{"plain-show", "plain", "show variables like 'version'"},
 }
 
 type worker struct {
@@ -199,7 +217,11 @@ func mustMaster(c caseT) string {
 
 func runCase(r *ev.Run, wk *worker, c caseT) outcome {
 	var o outcome
-	s, err := wk.w.NewSession(wk.ns[c.CSL], c.User, rig.CapsBase)
+	caps := uint32(rig.CapsBase)
+	if c.Transport == "multi" {
+		caps = rig.CapsMulti
+	}
+	s, err := wk.w.NewSession(wk.ns[c.CSL], c.User, caps)
 	if err != nil {
 		ev.Fatalf("session: %v", err)
 	}
@@ -214,6 +236,9 @@ func runCase(r *ev.Run, wk *worker, c caseT) outcome {
 		if rep := s.Query("set autocommit=0"); rep.Err || rep.Closed {
 			ev.Fatalf("rig: set autocommit=0 failed: %+v", rep)
 		}
+	}
+	if c.Transport == "multi" {
+		return runMulti(r, s, c)
 	}
 	var rep rig.Reply
 	if c.Transport == "prepared" {
@@ -275,6 +300,78 @@ func runCase(r *ev.Run, wk *worker, c caseT) outcome {
 	return o
 }
 
+// runMulti sends the pieces as ONE multi-statement COM_QUERY and judges every piece with the
+// same must-master table: the routing of a piece must not depend on what ran before it in the
+// same request. Executions are attributed to pieces in order by their SQL text (there are no
+// shard rules, so a piece reaches the backend verbatim).
+func runMulti(r *ev.Run, s *rig.Sess, c caseT) outcome {
+	var o outcome
+	rep := s.Query(c.SQL)
+	o.Rejected = rep.Err || rep.Closed
+	o.ErrMsg = rep.ErrMsg
+	o.Execs = rig.Execs(rep.Events)
+	r.Add("evaluations", 1)
+	r.Add("multi_statement_queries", 1)
+	next := 0
+	served := make([]string, len(c.Pieces))
+	for i, pc := range c.Pieces {
+		served[i] = "none"
+		for j := next; j < len(o.Execs); j++ {
+			if strings.TrimSpace(o.Execs[j].SQL) == strings.TrimSpace(pc.SQL) {
+				served[i] = o.Execs[j].Class
+				next = j + 1
+				break
+			}
+		}
+	}
+	if next != len(o.Execs) {
+		ev.Fatalf("rig: executions not attributable to pieces: %q -> %+v", c.SQL, o.Execs)
+	}
+	o.Served = strings.Join(served, ",")
+	r.Distinct("outcomes", fmt.Sprintf("multi|%s|%s|%s|%s|%s", c.Shape, c.Class, c.User, c.Tx, o.Served))
+	for i, pc := range c.Pieces {
+		pcase := c
+		pcase.Class = pc.Class
+		rule := mustMaster(pcase)
+		if served[i] != "none" {
+			r.Add("served", 1)
+			r.Add("multi_pieces_served", 1)
+			if c.User == rig.RwSplit && c.Tx == "none" {
+				r.Distinct("nontrivial", fmt.Sprintf("multi|%s|%d|%s|%s|%s|%s|%s|%s", c.Shape, i, c.Form, c.Lead, c.Trail, c.Case, c.Space, c.CSL))
+				r.Add("multi_routed_"+served[i]+"_"+pc.Class, 1)
+				if i > 0 && served[i] == "master" && served[i-1] == "replica" {
+					r.Add("multi_master_piece_after_replica_piece", 1)
+				}
+			}
+		}
+		if rule == "" || served[i] == "none" || served[i] == "master" {
+			continue
+		}
+		o.Rule = rule
+		before := "nothing"
+		if i > 0 {
+			before = c.Pieces[i-1].Role + "-on-" + served[i-1]
+		}
+		// decoration features describe the judged piece: only the form piece is decorated
+		lead, trail, cs, sp, form := "none", "none", "lower", "blank", pc.Role
+		if pc.Role == "form" {
+			lead, trail, cs, sp, form = c.Lead, c.Trail, c.Case, c.Space, c.Form
+		}
+		r.Violation(ev.Witness{
+			Summary: fmt.Sprintf("%s (tx=%s, check_select_lock=%s, multi-statement %s): piece %d %q of %q must run on the master (%s) but was executed on %s (pieces served by: %s)",
+				c.User, c.Tx, c.CSL, c.Shape, i+1, pc.SQL, c.SQL, rule, served[i], o.Served),
+			Features: map[string]string{
+				"form": form, "class": pc.Class, "lead": lead, "trail": trail, "case": cs, "space": sp,
+				"user": c.User, "check_select_lock": c.CSL, "tx": c.Tx, "transport": c.Transport,
+				"rule": rule, "served": served[i],
+				"shape": c.Shape, "piece": fmt.Sprint(i + 1), "before": before,
+			},
+			Case: c,
+		})
+	}
+	return o
+}
+
 func main() {
 	gx.Quiet()
 	r := ev.Start("C22", "exploration")
@@ -286,8 +383,8 @@ func main() {
 		wk := &worker{ns: map[string]string{"on": fmt.Sprintf("cslon%d", i), "off": fmt.Sprintf("csloff%d", i)}}
 		wks = append(wks, wk)
 		specs = append(specs,
-			rig.NSSpec{Name: wk.ns["on"], CheckSelectLock: true},
-			rig.NSSpec{Name: wk.ns["off"], CheckSelectLock: false})
+			rig.NSSpec{Name: wk.ns["on"], CheckSelectLock: true, MultiQuery: true},
+			rig.NSSpec{Name: wk.ns["off"], CheckSelectLock: false, MultiQuery: true})
 	}
 	w, err := rig.NewWorld(specs)
 	if err != nil {
@@ -368,6 +465,66 @@ func main() {
 		}
 	}
 
+	// multi-statement transport (one COM_QUERY, client with CLIENT_MULTI_STATEMENTS, namespace
+	// with support_multi_query): "<plain read>; F", "F; <plain read>", "<plain read>; F;
+	// <plain read>" for every form F under a reduced decoration set. Trailers that would
+	// swallow the following piece (`-- x`) or contain a semicolon are left out.
+	type mdv struct{ lead, trail, cs, sp int }
+	mdecos := []mdv{{0, 0, 0, 0}, {3, 0, 0, 0}, {4, 0, 0, 0}, {0, 1, 0, 0}, {0, 0, 1, 0}, {0, 0, 0, 2}}
+	if !r.Quick() {
+		mdecos = nil
+		for _, l := range []int{0, 1, 2, 3, 4} {
+			for _, t := range []int{0, 1, 5} {
+				for cs := range cases {
+					for sp := range spaces {
+						mdecos = append(mdecos, mdv{l, t, cs, sp})
+					}
+				}
+			}
+		}
+	}
+	multiCases := 0
+	for _, f := range forms {
+		for _, d := range mdecos {
+			fp := pieceT{"form", f.Class, decorate(f.SQL, d.lead, d.trail, d.cs, d.sp)}
+			for _, pp := range plainPieces {
+				shapes := []struct {
+					name   string
+					pieces []pieceT
+				}{
+					{pp.Role + ";F", []pieceT{pp, fp}},
+					{"F;" + pp.Role, []pieceT{fp, pp}},
+					{pp.Role + ";F;" + pp.Role, []pieceT{pp, fp, pp}},
+				}
+				for _, sh := range shapes {
+					var parts []string
+					for _, pc := range sh.pieces {
+						parts = append(parts, pc.SQL)
+					}
+					sql := strings.Join(parts, "; ")
+					got, err := parser.SplitStatementToPieces(sql)
+					if err != nil || len(got) != len(sh.pieces) {
+						ev.Fatalf("multi-statement text %q does not split into %d pieces: %v %q", sql, len(sh.pieces), err, got)
+					}
+					for _, u := range users {
+						for _, tx := range []string{"none", "begin"} {
+							for _, csl := range csls {
+								if csl == "off" && (r.Quick() || tx != "none") {
+									continue
+								}
+								all = append(all, caseT{Form: f.Name, Class: f.Class, Lead: leads[d.lead].Name, Trail: trails[d.trail].Name,
+									Case: cases[d.cs], Space: spaces[d.sp].Name, User: u, CSL: csl, Tx: tx, Transport: "multi",
+									SQL: sql, Shape: sh.name, Pieces: sh.pieces})
+								multiCases++
+							}
+						}
+					}
+				}
+			}
+		}
+	}
+	r.Set("multi_statement_cases", multiCases)
+
 	var mu sync.Mutex
 	sampled := map[string]bool{}
 	free := make(chan *worker, nWorkers)
@@ -378,7 +535,7 @@ func main() {
 		wk := <-free
 		o := runCase(r, wk, all[i])
 		free <- wk
-		key := fmt.Sprintf("%s/%s/%s/%s", all[i].Class, all[i].User, all[i].Tx, o.Served)
+		key := fmt.Sprintf("%s/%s/%s/%s/%s", all[i].Class, all[i].User, all[i].Tx, o.Served, all[i].Shape)
 		mu.Lock()
 		if !sampled[key] && (all[i].User == rig.RwSplit || len(sampled) < 3) {
 			sampled[key] = true
@@ -404,6 +561,9 @@ func main() {
 	r.Assume("read-only users outside a transaction are documented (docs/faq.md) to be served by replicas even for hinted / locking reads; they are observed, not judged")
 	r.Assume("only the documented hint spelling /*master*/ (any letter case) is judged; /*+ master */ is observed only")
 	// self-test of the harness; when the run has unexplained violations they are the verdict
+	if r.Violations() == 0 && r.Count("multi_master_piece_after_replica_piece") == 0 {
+		ev.Fatalf("vacuous: no multi-statement query had a master piece directly behind a replica piece")
+	}
 	if r.Violations() == 0 && (r.Count("routed_replica_plain") == 0 || r.Count("routed_master_lock") == 0) {
 		ev.Fatalf("vacuous: plain reads on replica=%d, locking reads on master=%d", r.Count("routed_replica_plain"), r.Count("routed_master_lock"))
 	}
